@@ -1,14 +1,16 @@
-\* generated by the builder of C02/C08; see MCSearchers.tla for the families
+\* generated with the builder script of C02/C08; families: MCSearchers.tla
 SPECIFICATION Spec
 CONSTANTS
   SegSizes <- Segs22
   Deleted = {1}
   OneHitEnc = TRUE
   ScoreNone = TRUE
-  HeapTakeover = 10
+  HeapTakeover = 0
   MaxCalls = 0
   NTerms = 3
-  Queries <- QDeepQuickNoK1
+  Family = "disj"
+  DropK1 = FALSE
+  Queries <- MCQueries
   FirstAdvanceOK <- FirstAdvNoQ2
 VIEW View
 INVARIANT EnumIsHits
